@@ -1,0 +1,133 @@
+//go:build verif
+
+// Round 5, area I: contracts for the start-up of nsq_to_http (C20): header parsing, flag validation and handler set-up in main.
+// Comment-only file. Assumed library contracts: .trusted/r5I.spec (package flag, go-nsq Config / Consumer), relay.spec.
+
+package main
+
+// ---- parseCustomHeaders ------------------------------------------------------------------------------------------------------------------
+// A header argument has the form "key:value": the text is cut at the FIRST ':' (strings.SplitN(s, ":", 2)), both parts are trimmed of
+// white space, and both must be non-empty. String functions as seen from this package (uninterpreted functions of their arguments):
+//   r5IHCut(s)    - s contains a ':'                       (SplitN yields two parts exactly then)
+//   r5IHKey(s)    - the text before the first ':' (all of s if there is none);  r5IHVal(s) - the text after it
+//   r5IHTrim(s)   - s without leading / trailing white space; trimming the empty string gives the empty string
+//@ fn r5IHCut(s string) bool
+//@ fn r5IHKey(s string) string
+//@ fn r5IHVal(s string) string
+//@ fn r5IHTrim(s string) string
+//@ extern[in github.com/nsqio/nsq/apps/nsq_to_http] strings.SplitN(s, sep, n) (r)
+//@   ensures[at-least-one-at-most-n] len(r) >= 1 && (n > 0 ==> len(r) <= n)
+//@   ensures[cut-at-the-first-colon] sep == ":" && n == 2 ==> ((len(r) == 2) <==> r5IHCut(s)) && r[0] == r5IHKey(s) && (len(r) == 2 ==> r[1] == r5IHVal(s))
+//@   modifies
+//@ extern[in github.com/nsqio/nsq/apps/nsq_to_http] strings.TrimSpace(s) (r)
+//@   ensures[trimmed] r == r5IHTrim(s) && (s == "" ==> r == "")
+//@   modifies
+// log.Fatal prints and calls os.Exit(1): it does not return (assumed at calls from this package; std.spec's `benign log.*` is the cautious
+// reading elsewhere).
+//@ extern[in github.com/nsqio/nsq/apps/nsq_to_http] log.Fatal(v)
+//@   ensures[does-not-return] false
+//@   modifies
+
+// s is a well-formed header argument
+//@ pred r5IHWellFormed(s string) := (r5IHCut(s) && r5IHTrim(r5IHKey(s)) != "" && r5IHTrim(r5IHVal(s)) != "")
+// (the forms of the existing test: "header1:" - empty value, ": value2" - empty key, ":" - both empty: all refused by [error-iff-some-malformed])
+//@ func parseCustomHeaders(strs []string) (map[string]string, error)
+//@   props C20
+//@   ensures[error-iff-some-malformed] (result1 != nil) <==> (exists i int :: {strs[i]} 0 <= i && i < len(strs) && !r5IHWellFormed(strs[i]))
+//@   ensures[error-means-no-headers] result1 != nil ==> result0 == nil
+//@   ensures[a-new-map] result1 == nil ==> result0 != nil && fresh(result0)
+//@   ensures[every-header-present] result1 == nil ==> (forall i int :: {strs[i]} 0 <= i && i < len(strs) ==> has(result0, r5IHTrim(r5IHKey(strs[i]))))
+//@   ensures[last-value-of-a-key-wins] result1 == nil ==> (forall i int :: {strs[i]} 0 <= i && i < len(strs) && (forall j int :: {strs[j]} i < j && j < len(strs) ==> r5IHTrim(r5IHKey(strs[j])) != r5IHTrim(r5IHKey(strs[i]))) ==> result0[r5IHTrim(r5IHKey(strs[i]))] == r5IHTrim(r5IHVal(strs[i])))
+//@   ensures[no-empty-key-or-value] result1 == nil ==> (forall k string :: {result0[k]} has(result0, k) ==> k != "" && result0[k] != "")
+//@   ensures[input-untouched] forall i int :: {strs[i]} 0 <= i && i < len(strs) ==> strs[i] == old(strs[i])
+//@   modifies
+//@   nochan
+//@   loop 0
+//@     invariant[all-so-far-well-formed] forall i int :: {strs[i]} 0 <= i && i <= rangeindex && i < len(strs) ==> r5IHWellFormed(strs[i])
+//@     invariant[a-new-map] parsedHeaders != nil && fresh(parsedHeaders)
+//@     invariant[every-header-so-far-present] forall i int :: {strs[i]} 0 <= i && i <= rangeindex && i < len(strs) ==> has(parsedHeaders, r5IHTrim(r5IHKey(strs[i])))
+//@     invariant[last-value-so-far-wins] forall i int :: {strs[i]} 0 <= i && i <= rangeindex && i < len(strs) && (forall j int :: {strs[j]} i < j && j <= rangeindex && j < len(strs) ==> r5IHTrim(r5IHKey(strs[j])) != r5IHTrim(r5IHKey(strs[i]))) ==> parsedHeaders[r5IHTrim(r5IHKey(strs[i]))] == r5IHTrim(r5IHVal(strs[i]))
+//@     invariant[no-empty-key-or-value] forall k string :: {parsedHeaders[k]} has(parsedHeaders, k) ==> k != "" && parsedHeaders[k] != ""
+
+// ---- main ------------------------------------------------------------------------------------------------------------------------------------
+// go-nsq consumer set-up as seen from this package (ASSUMED library contracts; every call is recorded):
+//   NewConsumer: a consumer or an error; AddConcurrentHandlers: go-nsq starts `concurrency` goroutines that call handler.HandleMessage
+//   for every message - so what HandleMessage / Publish ASSUME about the handler (validHTTPPH, a valid mode, the sampling rate and the HTTP
+//   client being set) must hold BEFORE this call: stated as preconditions of the extern = obligations of main();
+//   ConnectToNSQDs / ConnectToNSQLookupds: messages start to flow - only to a consumer that already has its handler (the consumer is a
+//   new object, so "the most recent handler registration was on this consumer" cannot be a leftover of the initial ghost state).
+//@ ghost r5IHConsumers int
+//@ ghost r5IHConsumer *nsq.Consumer
+//@ ghost r5IHHandlerAdds int
+//@ ghost r5IHHandlerOf *nsq.Consumer
+//@ ghost r5IHHandler nsq.Handler
+//@ ghost r5IHConnects int
+//@ ghostgroup r5IHConsumers, r5IHConsumer
+//@ ghostgroup r5IHHandlerAdds, r5IHHandlerOf, r5IHHandler
+//@ extern[in github.com/nsqio/nsq/apps/nsq_to_http] github.com/nsqio/go-nsq.NewConsumer(t, c, config) (r, err)
+//@   requires[topic-and-channel-given] t != "" && c != ""
+//@   requires[max-in-flight-from-the-flag] config != nil && config.MaxInFlight == *maxInFlight
+//@   ensures[consumer-or-error] (err == nil) <==> (r != nil)
+//@   ensures[new] r != nil ==> fresh(r)
+//@   modifies r5IHConsumers
+//@   onreturn r5IHConsumers := r5IHConsumers + 1
+//@   onreturn r5IHConsumer := r
+//@ extern[in github.com/nsqio/nsq/apps/nsq_to_http] (*github.com/nsqio/go-nsq.Consumer).AddConcurrentHandlers(r, handler, concurrency)
+//@   requires r != nil
+//@   requires[the-publish-handler] dyntype(handler) == typetag("*PublishHandler") && validHTTPPH(unbox(handler, "*PublishHandler"))
+//@   requires[mode-is-valid] unbox(handler, "*PublishHandler").mode == ModeAll || unbox(handler, "*PublishHandler").mode == ModeRoundRobin || unbox(handler, "*PublishHandler").mode == ModeHostPool
+//@   requires[publisher-matches-the-addresses] (len(postAddrs) > 0 ==> dyntype(unbox(handler, "*PublishHandler").Publisher) == typetag("*PostPublisher") && unbox(handler, "*PublishHandler").addresses == postAddrs) && (len(postAddrs) == 0 ==> dyntype(unbox(handler, "*PublishHandler").Publisher) == typetag("*GetPublisher") && unbox(handler, "*PublishHandler").addresses == getAddrs)
+//@   requires[a-status-slot-per-address] forall i int :: {unbox(handler, "*PublishHandler").addresses[i]} 0 <= i && i < len(unbox(handler, "*PublishHandler").addresses) ==> has(unbox(handler, "*PublishHandler").perAddressStatus, unbox(handler, "*PublishHandler").addresses[i])
+//@   requires[http-client-and-flags-set] httpclient != nil && contentType != nil && sample != nil
+//@   requires[custom-headers-parsed] len(customHeaders) > 0 ==> validCustomHeaders != nil
+//@   requires[sample-rate-in-range] !(*sample > float64(1)) && !(*sample < float64(0))
+//@   modifies r5IHHandlerAdds
+//@   onreturn r5IHHandlerAdds := r5IHHandlerAdds + 1
+//@   onreturn r5IHHandlerOf := r
+//@   onreturn r5IHHandler := handler
+//@ extern[in github.com/nsqio/nsq/apps/nsq_to_http] (*github.com/nsqio/go-nsq.Consumer).ConnectToNSQDs(r, addrs) (err)
+//@   requires r != nil
+//@   requires[handler-first] r5IHHandlerOf == r
+//@   modifies r5IHConnects
+//@   onreturn r5IHConnects := r5IHConnects + 1
+//@ extern[in github.com/nsqio/nsq/apps/nsq_to_http] (*github.com/nsqio/go-nsq.Consumer).ConnectToNSQLookupds(r, addrs) (err)
+//@   requires r != nil
+//@   requires[handler-first] r5IHHandlerOf == r
+//@   modifies r5IHConnects
+//@   onreturn r5IHConnects := r5IHConnects + 1
+// host pools, metrics: objects without modelled state; a pool constructor returns a pool.
+//@ extern[in github.com/nsqio/nsq/apps/nsq_to_http] github.com/bitly/go-hostpool.New(hosts) (p)
+//@   ensures p != nil
+//@   modifies
+//@ extern[in github.com/nsqio/nsq/apps/nsq_to_http] github.com/bitly/go-hostpool.NewEpsilonGreedy(hosts, decay, calc) (p)
+//@   ensures p != nil
+//@   modifies
+//@ benign github.com/bitly/timer_metrics.NewTimerMetrics
+
+// main (C20 "in every mode (round-robin, hostpool, epsilon-greedy; GET and POST; one or several destinations)"): every flag check is made
+// before the consumer exists and a failed check is fatal; the ONE consumer gets the ONE publish handler - built for the validated
+// addresses (POST or GET, never both, never none; each GET address takes exactly one %s), the selected mode, a status slot per address -
+// before it connects; --max-in-flight reaches the consumer configuration; malformed --header values are fatal.
+//@ func main()
+//@   props C20
+//   (Go package initialisation: the package-level flag variables are set, by flag.String / flag.Int ..., before main runs, and the
+//    "content-type" flag is defined on the command line flag set)
+//@   requires[flags-initialised] showVersion != nil && topic != nil && channel != nil && maxInFlight != nil && numPublishers != nil && mode != nil && sample != nil && httpConnectTimeout != nil && httpRequestTimeout != nil && statusEvery != nil && contentType != nil
+//@   requires[content-type-flag-defined] setin(r5IFlags, r5IFlagKey(nil, "content-type"))
+//@   ensures[at-most-one-consumer] r5IHConsumers == old(r5IHConsumers) || r5IHConsumers == old(r5IHConsumers) + 1
+//@   ensures[consumer-has-the-handler-and-was-connected] r5IHConsumers == old(r5IHConsumers) + 1 ==> r5IHHandlerAdds == old(r5IHHandlerAdds) + 1 && r5IHHandlerOf == r5IHConsumer && r5IHConnects == old(r5IHConnects) + 2
+//@   ensures[version-only-prints] r5IHConsumers == old(r5IHConsumers) ==> r5IHHandlerAdds == old(r5IHHandlerAdds) && r5IHConnects == old(r5IHConnects)
+//@   ensures[no-publish-here] httpPubCalls == old(httpPubCalls) && httpDoCalls == old(httpDoCalls)
+//@   loop 0
+//@     invariant[get-addresses-so-far-take-one-argument] len(postAddrs) == 0 && len(getAddrs) > 0 && r5IHConsumers == old(r5IHConsumers) && r5IHHandlerAdds == old(r5IHHandlerAdds) && r5IHConnects == old(r5IHConnects)
+//@     invariant[no-publish-here] httpPubCalls == old(httpPubCalls) && httpDoCalls == old(httpDoCalls)
+//@     invariant[flags] httpclient != nil && topic != nil && channel != nil && *topic != "" && *channel != "" && maxInFlight != nil && mode != nil && sample != nil && statusEvery != nil && contentType != nil && numPublishers != nil && cfg != nil
+//@   loop 1
+//@     invariant[a-status-slot-per-address-so-far] perAddressStatus != nil && (forall i int :: {addresses[i]} 0 <= i && i <= rangeindex && i < len(addresses) ==> has(perAddressStatus, addresses[i]))
+//@     invariant[consumer] consumer != nil && consumer == r5IHConsumer && r5IHConsumers == old(r5IHConsumers) + 1 && r5IHHandlerAdds == old(r5IHHandlerAdds) && r5IHConnects == old(r5IHConnects)
+//@     invariant[validated] (len(customHeaders) > 0 ==> validCustomHeaders != nil) && httpclient != nil && contentType != nil && sample != nil && !(*sample > float64(1)) && !(*sample < float64(0)) && mode != nil && statusEvery != nil && numPublishers != nil && publisher != nil && len(addresses) >= 1 && (selectedMode == ModeAll || selectedMode == ModeRoundRobin || selectedMode == ModeHostPool)
+//@     invariant[publisher-matches-the-addresses] (len(postAddrs) > 0 ==> dyntype(publisher) == typetag("*PostPublisher") && addresses == postAddrs) && (len(postAddrs) == 0 ==> dyntype(publisher) == typetag("*GetPublisher") && addresses == getAddrs)
+//@     invariant[no-publish-here] httpPubCalls == old(httpPubCalls) && httpDoCalls == old(httpDoCalls)
+//@   loop 2
+//@     invariant[consumer] consumer != nil && consumer == r5IHConsumer && r5IHConsumers == old(r5IHConsumers) + 1 && r5IHHandlerAdds == old(r5IHHandlerAdds) + 1 && r5IHHandlerOf == r5IHConsumer && r5IHConnects == old(r5IHConnects) + 2
+//@     invariant[no-publish-here] httpPubCalls == old(httpPubCalls) && httpDoCalls == old(httpDoCalls)
